@@ -149,6 +149,6 @@ def hdr : Handler := fun args impl =>
   | _ => unmodelled
 
 def handlers : List (String × Handler) :=
-  [("enc", enc), ("rt", rt), ("dec", dec), ("align", align), ("hdr", hdr)]
+  [("benc", enc), ("brt", rt), ("bdec", dec), ("balign", align), ("bhdr", hdr)]
 
 end OFV.Driver.C19
